@@ -2,7 +2,7 @@
    The floating-point simplex, presolve and scaling are untrusted witness producers.  These theorems say what an
    accepted witness implies for the LP exactly as the user stated it, for LPs of every size. *)
 From Coq Require Import QArith Qabs List Bool.
-From SV Require Import Vec LP Cert Cert_Proofs.
+From SV Require Import Vec LP Cert Cert_Proofs DriverModel Driver_Proofs.
 Import ListNotations.
 Local Open Scope Q_scope.
 
@@ -40,7 +40,52 @@ Theorem C01_verdicts_exclusive :
 Proof. exact verdicts_exclusive. Qed.
 Print Assumptions C01_verdicts_exclusive.
 
+(* ---- the solve driver (solvereal.hpp: _optimize, _preprocessAndSolveReal, _evaluateSolutionReal, _storeSolutionReal,
+   _verifySolutionReal, ...), modelled in DriverModel.v and tied to the code by replaying every recorded control trace.
+   The simplifier, the scalers and the simplex engine are oracles: the theorems hold for EVERY sequence of answers. ---- *)
+
+(* The OPTIMAL gate: whatever the simplifier, the scaler and the engine answer, optimize() ends with status OPTIMAL only
+   with a stored solution that was computed on the user's LP itself (not simplified, not scaled) or that passed
+   _verifySolutionReal in the user's problem space (all four violations below their tolerance). *)
+Theorem C01_optimal_is_gated :
+  forall P orc oscaled s0 r, optimize P orc oscaled FUEL s0 = Done r -> status r = OPTIMAL -> sol_ok r = true.
+Proof. exact optimal_is_gated. Qed.
+Print Assumptions C01_optimal_is_gated.
+
+(* Exactly the undo maps that separate the solver's LP from the user's LP are applied (internal unscaling, unsimplify,
+   persistent unscaling): a gated solution, a ray and a Farkas vector are always handed out in the user's problem space. *)
+Theorem C01_stored_solution_in_user_space :
+  forall P orc oscaled s0 r, optimize P orc oscaled FUEL s0 = Done r ->
+    (sol_ok r || has_ray r || has_farkas r) = true -> is_user_space (sol_space r) = true.
+Proof. exact offered_solution_in_user_space. Qed.
+Print Assumptions C01_stored_solution_in_user_space.
+
+(* The driver's re-solve recursion (failed verification, polishing pass, singular basis, cycling, exception in unsimplify,
+   ENSURERAY) always ends: at most FUEL = 5 nested calls of _preprocessAndSolveReal, for every oracle. *)
+Theorem C01_driver_terminates :
+  forall P orc oscaled s0, optimize P orc oscaled FUEL s0 <> OutOfFuel.
+Proof. exact driver_terminates. Qed.
+Print Assumptions C01_driver_terminates.
+
 (* ---- non-vacuity ---- *)
+Definition ex_orec (t : st) (vfail : bool) : orec :=
+  {| o_simp := S_OKAY; o_scaled := true; o_status := t; o_throw := false; o_vbits := (false, vfail, false, false);
+     o_dualfeas := true; o_cycstatus := ABORT_CYCLING; o_resbasis := true |}.
+Definition ex_params : dparams :=
+  {| p_simp := true; p_scaler := true; p_persist := true; p_ensureray := false; p_objlim := false |}.
+Definition ex_state : dstate :=
+  {| simp_on := false; scaler_on := true; loaded := true; scaled := false; sol_scaled := false; intl := false;
+     has_basis := false; status := OTHER 0; has_sol := false; has_ray := false; has_farkas := false; apply_pol := false;
+     objlim_en := true; opt_calls := 0; unsc_calls := 0; sol_space := user_space; sol_ok := false; frame := O; trace := [] |}.
+(* presolved + persistently and internally scaled solve; the row violation fails the verification once, the LP is unscaled
+   and solved again without preprocessing: two inner solves, OPTIMAL with a gated solution in user space *)
+Example C01_ex_driver_run :
+  match optimize ex_params (fun k => ex_orec OPTIMAL (Nat.eqb k 0)) true FUEL ex_state with
+  | Done r => status r = OPTIMAL /\ sol_ok r = true /\ frame r = 2%nat /\ scaled r = false /\ is_user_space (sol_space r) = true
+  | _ => False
+  end.
+Proof. vm_compute. repeat split. Qed.
+
 Definition ex_lp : lp :=
   {| maximize := false; offset := 3;
      cols := [ {| c_obj := 1; c_lo := Some 0; c_up := Some 4 |}; {| c_obj := 2; c_lo := Some 0; c_up := None |} ];
